@@ -98,6 +98,10 @@ Proof. exact (BReach_inv HT node node_inj zhf Hzh leafh Hleaf). Qed.
 (* Reorg keeps the processor inside the reachable states (so everything above applies to the reorged node and to its continuation) *)
 Theorem C04_processor_reorg_reachable : forall st b, BReach HT node zhf leafh st -> BReach HT node zhf leafh (reorg st b).
 Proof. intros st b H. apply BR_reorg. exact H. Qed.
+(* what survives a reorg at b is exactly the part of the history recorded in blocks below b *)
+Theorem C04_processor_reorg_history : forall st b,
+  hist_of leafh (st_db (reorg st b)) = filter (fun x => (fst (snd x) <? b)%N) (hist_of leafh (st_db st)).
+Proof. exact (reorg_history leafh). Qed.
 (* two reachable processor states holding the same surviving deposits answer every exit-tree query identically, however they
    got there (through dropped blocks and Reorg, through failed blocks and retries, through restarts) *)
 Theorem C04_processor_reorg_as_if_never_seen : forall st1 st2, BReach HT node zhf leafh st1 -> BReach HT node zhf leafh st2 ->
@@ -114,6 +118,7 @@ End Processor.
 Print Assumptions C04_reorg_nested.
 Print Assumptions C04_processor_invariant.
 Print Assumptions C04_processor_reorg_reachable.
+Print Assumptions C04_processor_reorg_history.
 Print Assumptions C04_processor_reorg_as_if_never_seen.
 Print Assumptions C04_store_reorg_as_if_never_seen.
 Print Assumptions C04_store_reorg_as_if_never_seen_roots.
